@@ -143,8 +143,12 @@ MovesImm(h, kn) ==
                 \o MapS(a, LAMBDA c : Fn2("add", Agg("max", Col(c)), LitI(1)))
                 \o (IF a # <<>> /\ b # <<>> THEN <<Win("row_number", <<>>, <<Ord(Col(b[1]), FALSE, "first"), Ord(Col(a[1]), TRUE, "last")>>),
                                                    AggF("count", Col(a[1]), Fn2("gt", Col(b[1]), LitI(0)))>> ELSE <<>>)
+                \o (IF a # <<>> /\ b # <<>>       \* case expressions that share a prefix: when(..).then(..) extended in two ways
+                    THEN <<Case1(Fn2("gt", Col(a[1]), LitI(0)), Col(b[1])),
+                           Case2D(Fn2("gt", Col(a[1]), LitI(0)), Col(b[1]), Fn2("lt", Col(a[1]), LitI(0)), Fn1("neg", Col(b[1])), LitI(0)),
+                           Case1D(Fn2("gt", Col(a[1]), LitI(0)), Col(b[1]), LitI(100))>> ELSE <<>>)
         wn == IF NameFree(t, "w") THEN "w" ELSE IF NameFree(t, "w2") THEN "w2" ELSE "w3"
-        aggOnly == SelectSeq(pool, LAMBDA e : e.k # "win")
+        aggOnly == SelectSeq(pool, LAMBDA e : e.k = "agg" \/ (e.k = "fn" /\ e.op = "add"))
     IN  MapS(pool, LAMBDA e : MMutate(i, <<KV(wn, e)>>))
         \o (IF Summarized(t) THEN <<>> ELSE MapS(aggOnly, LAMBDA e : MSummarize(i, <<KV("s", e)>>)))
         \o MapS(g, LAMBDA c : MGroupBy(i, <<Col(c)>>, FALSE))
